@@ -636,3 +636,17 @@ def settle (s : BState) : Option String :=
   else s.conns.findSome? (fun e => settleConn s e.1 e.2)
 
 end BState
+
+/-! ### the transition system, for statements about every reachable state -/
+
+/-- one step of the model: a stimulus (any of its possible outcomes), an accepted observation, or
+    a change of the backend's acknowledgement mode -/
+inductive Step : BState → BState → Prop where
+  | stim {s s' : BState} (st : BState.Stim) (ss : List BState) (h : BState.stim s st = .ok ss) (hm : s' ∈ ss) : Step s s'
+  | obs {s s' : BState} (o : BState.Obs) (hm : s' ∈ BState.observe s o) : Step s s'
+  | ackMode {s : BState} (late never : Bool) : Step s { s with lateAck := late, neverAck := never }
+
+/-- states reachable from the empty broker with configuration `cfg` -/
+inductive Reachable (cfg : Cfg) : BState → Prop where
+  | init : Reachable cfg { cfg := cfg }
+  | step {s s' : BState} : Reachable cfg s → Step s s' → Reachable cfg s'
